@@ -130,8 +130,8 @@ through the same wrapper), the only thing that changes is the strong count, and 
 call is over.  So a thread that survived a panic of the recorder is served like any other afterwards, and a
 re-entrant emission — made while the same thread holds a strong reference — can never find the recorder gone. -/
 
-/-- the three kinds of emission -/
-def isEmission (c : Call) : Prop := c = .emit ∨ c = .emitPanic ∨ c = .emitNested
+/-- the four kinds of emission (the last: a registration whose returned handle the caller keeps) -/
+def isEmission (c : Call) : Prop := c = .emit ∨ c = .emitPanic ∨ c = .emitNested ∨ c = .emitKeep
 
 /-- **live while the handle is alive, for every kind of emission** (plain, panicking recorder, re-entrant
     recorder): the upgrade succeeds and the call enters the recorder; the system takes the `enter` step -/
@@ -143,7 +143,8 @@ theorem live_while_handle_any (progs : List (List Call)) (sched : List Nat) (t :
     ∧ (stepThread (run (init progs) sched) t).2.results = t.results := by
   have h := reachable_inv progs sched
   have : (run (init progs) sched).strong > 0 := by rw [h.strong_eq, hh]; simp; omega
-  rcases he with he | he | he <;> subst he <;> unfold stepThread <;> rw [hpc, hc] <;> simp [upgradeStep, this]
+  rcases he with he | he | he | he <;> subst he <;> unfold stepThread <;> rw [hpc, hc] <;>
+    simp [upgradeStep, keepUpgradeStep, this]
 
 /-- **a panic of the wrapped recorder leaks nothing**: the unwinding call leaves the system in exactly the state a
     normal return would have left it in (strong reference released, recorder finalised iff it was the last one);
@@ -239,6 +240,142 @@ theorem failed_install_intact (sched : List Nat) :
     rw [this, key sched _ rfl]; rfl
   rcases failed_install_states sched with h | h | h <;> rw [h] <;> exact ⟨rfl, rfl, rfl, rfl, hrec⟩
 
+
+/-! ### metric handles the caller KEEPS across the end of the recorder's life
+
+`let c = counter!("x")` keeps the `Counter` the wrapper returned; the caller may hold it for as long as it likes, write
+through it and drop it whenever it likes — also after the recovery handle was dropped or `into_inner` was called.
+In the model the kept handles are part of the thread state (`Thread.kept`, one Boolean per handle: live / inert).
+What the wrapper returns is the wrapped recorder's OWN handle (`src_recoverable_bodies`: the forwarding arm is the
+value of the method), the strong reference of the call is a local of that arm: so the count is "handle + calls
+inside" whatever is kept, and a kept handle can neither delay `into_inner`, nor delay the finalisation after a
+handle drop, nor keep later registrations alive. -/
+
+/-- handles kept by all threads together -/
+def keptCount (s : Sys) : Nat := (s.threads.map (fun t => t.kept.length)).sum
+
+/-- no thread is between its upgrade and its return (no emission is executing) -/
+def quiet (s : Sys) : Prop := ∀ u ∈ s.threads, insN u = 0
+
+/-- **a kept handle holds no reference to the recorder**: in every reachable state the strong count is one for
+    the recovery handle plus one per call executing inside the recorder — the kept handles, however many, do not
+    occur in it -/
+theorem kept_handles_hold_no_reference (progs : List (List Call)) (sched : List Nat) :
+    (run (init progs) sched).strong
+      = (if (run (init progs) sched).handle then 1 else 0) + insCount (run (init progs) sched) := by
+  have h := reachable_inv progs sched
+  rw [h.strong_eq, h.inside_eq]
+
+/-- the registration whose handle is kept releases its strong reference exactly like a plain emission (same
+    successor state of the pair: last reference ⇒ finalised); the thread's list of kept handles grows by a live one -/
+theorem keep_releases_like_emit (s : Sys) (t : Thread) (rest : List Call)
+    (hpc : t.pc = .inside) (hc : t.calls = .emitKeep :: rest) :
+    (stepThread s t).1 = (stepThread s { t with calls := .emit :: rest }).1
+    ∧ (stepThread s t).2.results = t.results ++ [Res.delivered]
+    ∧ (stepThread s t).2.kept = t.kept ++ [true]
+    ∧ (stepThread s t).2.calls = rest := by
+  unfold stepThread; rw [hpc, hc]; simp [leaveStep, keepLeaveStep, Thread.advance, hc]
+
+/-- **writing through kept handles and dropping them changes nothing of the pair** (count, finalisation,
+    recovery, who is inside): at whatever pc, a step of a thread whose next call is `useKept` / `dropKept` leaves
+    the system as it is — in particular dropping a kept handle never finalises the recorder and never lets a
+    spinning `into_inner` through, and keeping it never holds either back -/
+theorem kept_use_and_drop_touch_nothing (s : Sys) (t : Thread) (c : Call) (rest : List Call)
+    (hc : t.calls = c :: rest) (h : c = .useKept ∨ c = .dropKept) : (stepThread s t).1 = s := by
+  rcases h with h | h <;> subst h <;> unfold stepThread <;> rw [hc] <;> cases t.pc <;> simp [useStep, kdropStep]
+
+/-- what `useKept` answers: how many of the kept handles are live (came from the recorder) and how many inert;
+    the handles stay kept -/
+theorem use_counts_kept (s : Sys) (t : Thread) (rest : List Call) (hpc : t.pc = .use) (hc : t.calls = .useKept :: rest) :
+    (stepThread s t).2.results
+      = t.results ++ [Res.used (t.kept.filter (· == true)).length (t.kept.filter (· == false)).length]
+    ∧ (stepThread s t).2.kept = t.kept := by
+  unfold stepThread; rw [hpc, hc]; simp [useStep, Thread.advance]
+
+/-- **a kept handle does not keep the recorder alive after a handle drop**: once the recovery handle is gone and
+    no emission is executing, the count is zero and the recorder has been finalised (exactly once) or recovered —
+    however many metric handles the threads still keep (`keptCount` is unconstrained) -/
+theorem kept_handle_does_not_keep_alive (progs : List (List Call)) (sched : List Nat)
+    (hh : (run (init progs) sched).handle = false) (hq : quiet (run (init progs) sched)) :
+    (run (init progs) sched).strong = 0
+    ∧ ((run (init progs) sched).finalised = 1 ∨ (run (init progs) sched).recovered = true) := by
+  have h := reachable_inv progs sched
+  have hi : (run (init progs) sched).inside = 0 := by rw [h.inside_eq]; exact insCount_zero_of_quiet _ hq
+  have h0 : (run (init progs) sched).strong = 0 := by rw [h.strong_eq, hh, hi]; simp
+  refine ⟨h0, ?_⟩
+  rcases h.gone h0 hh with x | x
+  · left; have := h.once; omega
+  · right; exact x
+
+/-- **`into_inner` returns although handles are kept**: in every reachable state in which the recovery handle is
+    alive and no emission is executing — e.g. all emitters are done, each still keeping the handles it got through
+    the wrapper — the next `Arc::try_unwrap` attempt of `into_inner` succeeds: the thread gets `recovered`, the
+    recorder was not finalised, nobody is inside -/
+theorem into_inner_returns_despite_kept_handles (progs : List (List Call)) (sched : List Nat) (tid : Nat)
+    (t : Thread) (rest : List Call)
+    (hg : (run (init progs) sched).threads[tid]? = some t)
+    (hh : (run (init progs) sched).handle = true) (hq : quiet (run (init progs) sched))
+    (hpc : t.pc = .tryUnwrap) (hc : t.calls = .intoInner :: rest) :
+    (step (run (init progs) sched) tid).recovered = true
+    ∧ (step (run (init progs) sched) tid).finalised = 0
+    ∧ (step (run (init progs) sched) tid).strong = 0
+    ∧ (stepThread (run (init progs) sched) t).2.results = t.results ++ [Res.recovered] := by
+  have h := reachable_inv progs sched
+  have hi : (run (init progs) sched).inside = 0 := by rw [h.inside_eq]; exact insCount_zero_of_quiet _ hq
+  have h1 : (run (init progs) sched).strong = 1 := by rw [h.strong_eq, hh, hi]; simp
+  have hf := (h.handle_live hh).1
+  unfold step; rw [hg]; simp only
+  unfold stepThread; rw [hpc, hc]; simp [hh, h1, hf, Thread.advance]
+
+/-- **inert after the end, kept handles included**: once the count is zero (recovered, or dropped for good), a
+    registration whose handle is kept is ignored in every continuation, the pair is untouched, and what the caller
+    keeps is an inert handle -/
+theorem inert_after_end_keep (progs : List (List Call)) (sched more : List Nat) (t : Thread) (rest : List Call)
+    (h0 : (run (init progs) sched).strong = 0) (hpc : t.pc = .upgrade) (hc : t.calls = .emitKeep :: rest) :
+    let s := run (run (init progs) sched) more
+    (stepThread s t).2.results = t.results ++ [Res.ignored] ∧ (stepThread s t).2.kept = t.kept ++ [false]
+    ∧ (stepThread s t).1 = s := by
+  have hz := ended_stays_ended more _ (reachable_inv progs sched) h0
+  simp only
+  unfold stepThread; rw [hpc, hc]; simp [keepUpgradeStep, hz, Thread.advance]
+
+/-- the kept list tells the truth about every handle in it: a step appends `true` only when the registration was
+    inside the recorder, `false` only when the count was zero -/
+theorem kept_grows_truthfully (s : Sys) (t : Thread) (b : Bool)
+    (h : (stepThread s t).2.kept = t.kept ++ [b]) :
+    (b = true → t.pc = .inside) ∧ (b = false → s.strong = 0 ∧ t.pc = .upgrade) := by
+  have key : ∀ (l : List Bool) (x : Bool), l ≠ l ++ [x] := by
+    intro l x hx; have := congrArg List.length hx; simp at this
+  revert h
+  unfold stepThread
+  split <;> try (intro h; exact absurd h (key _ _))
+  all_goals first
+    | (unfold upgradeStep; split <;> intro h <;> exact absurd h (key _ _))
+    | (unfold leaveStep; intro h; exact absurd h (key _ _))
+    | (split <;> intro h <;> exact absurd h (key _ _))
+    | skip
+  · rename_i rest hp hc
+    unfold keepUpgradeStep
+    split
+    · intro h; exact absurd h (key _ _)
+    · rename_i hs
+      intro h
+      have hb : b = false := by
+        have := List.append_cancel_left h; simpa using this.symm
+      subst hb
+      exact ⟨by simp, fun _ => ⟨by omega, hp⟩⟩
+  · rename_i rest hp hc
+    unfold keepLeaveStep
+    intro h
+    have hb : b = true := by
+      have := List.append_cancel_left h; simpa using this.symm
+    subst hb
+    exact ⟨fun _ => hp, by simp⟩
+  · unfold kdropStep
+    intro h
+    have := congrArg List.length h
+    simp at this
+
 /-! ### the full statement "after the handle is dropped … ignored" is FALSE of the code (known finding)
 
 The property text says registrations are ignored "after it returns, or after the handle is dropped".  For
@@ -278,6 +415,16 @@ example :   -- a recorder that panics, then the same thread emits again; a re-en
     let s := run (init [[.emitPanic, .emit], [.emitNested], [.intoInner]]) [0, 1, 2, 0, 1, 2, 0, 1, 2, 1, 0, 0, 1, 2, 2, 0]
     s.threads.map (·.results) = [[.panicked, .delivered], [.nestedDelivered, .delivered], [.recovered]]
     ∧ s.recovered = true ∧ s.finalised = 0 ∧ s.unwrapBusy = false := by decide
+
+example :   -- handles kept across into_inner: it returns at its first attempt, the kept handle stays live, later registrations are inert
+    let s := run (init [[.emitKeep, .useKept, .emitKeep, .useKept, .dropKept, .emit], [.intoInner]]) [0, 0, 0, 1, 1, 0, 0, 0, 0, 0]
+    s.threads.map (·.results) = [[.delivered, .used 1 0, .ignored, .used 1 1, .keptDropped 2, .ignored], [.recovered]]
+    ∧ s.recovered = true ∧ s.finalised = 0 ∧ s.strong = 0 := by decide
+
+example :   -- handles kept across a handle drop: finalised at the drop (nobody inside), not when the kept handle goes
+    let s := run (init [[.emitKeep], [.dropHandle], [.emitKeep]]) [0, 0, 0, 1, 1, 2, 2]
+    s.threads.map (·.results) = [[.delivered], [.dropped], [.ignored]]
+    ∧ s.threads.map (·.kept) = [[true], [], [false]] ∧ keptCount s = 2 ∧ s.finalised = 1 ∧ s.strong = 0 := by decide
 
 example : install none 7 = (some 7, .installed) ∧ install (some 7) 9 = (some 7, .handedBack 9 0 true) := by decide
 
